@@ -398,6 +398,8 @@ SPECS += [
 
 from . import srcspecs_small                                                   # third extension, tag "small"
 SPECS += srcspecs_small.SPECS_SMALL; HEADER += srcspecs_small.HEADER_SMALL
+from . import srcspecs_mem  # noqa: E402  (third extension, tag mem: MemoryTimeline / MutableTimeline)
+SPECS += srcspecs_mem.SPECS_MEM; HEADER = HEADER.rstrip("\n") + "\n" + srcspecs_mem.HEADER_MEM + "\n"  # noqa: E702
 
 
 def regenerate(repo: Path, coq_dir: Path):
